@@ -739,6 +739,9 @@ func run(t *rapid.T, pr *program) *world {
 
 func TestC04Procedures(t *testing.T) {
 	rapid.Check(t, func(t *rapid.T) {
+		if vstat.OverBudget() {
+			return
+		}
 		vstat.Case()
 		pr := genProgram(t)
 		w := run(t, pr)
